@@ -87,7 +87,9 @@ impl Prop for C28 {
     let mut did = 0;
     let commits: Vec<Value> = (0..ncommits)
       .map(|_| {
-        let nd = 1 + rng.below(4);
+        // document counts such as 7, 11, 13 give average field lengths whose decimal form
+        // does not survive a JSON round trip (manifest floats, /repo 377f315)
+        let nd = if rng.chance(1, 4) { *rng.pick(&[7usize, 11, 13]) } else { 1 + rng.below(4) };
         let docs: Vec<Value> = (0..nd)
           .map(|_| {
             did += 1;
